@@ -13,8 +13,9 @@ LEVEL_TEXT = ('Proved in Lean on the whole interpreter model: rendering only app
               'evaluator leaves what was on the output stack untouched and extends the current stream at its end, also when it raises '
               '(good_all / good_eval: induction on the fuel over all four mutually recursive functions and every node kind, macro calls, '
               'slot fillers and translation sub-streams included); hence when the guarded element raises an Exception, tal:on-error '
-              'continues with the fallback from exactly the output before the element, with error bound and the handler called once '
-              '(C13_exact), renders the element unchanged when nothing fails (C13_pass_through) and lets exceptions outside the '
+              'continues with the fallback from exactly the output before the element, with error bound and the handler called once — '
+              'whether or not an expression position is known, i.e. also when the failure comes out of an internal macro or a slot filler '
+              '(C13_exact; the position is unknown exactly then: C13_error_bound, the behaviour after the D-13c fix), renders the element unchanged when nothing fails (C13_pass_through) and lets exceptions outside the '
               'Exception hierarchy through (C13_base_exception_propagates). In detail: the handler step of tal:on-error (the `except Exception` branch of visit_OnError as modelled by '
               'onErrorHandle) leaves exactly the output from before the element — whatever the element had emitted, however many '
               'translation sub-streams were open — increments the handler-call count once and binds `error` '
@@ -23,7 +24,8 @@ LEVEL_TEXT = ('Proved in Lean on the whole interpreter model: rendering only app
               'generated templates with nested handlers and planted failures, and judged by an independent constructive oracle.')
 LEVEL_NOTE = ('Trusted: Lean kernel; the node interpreter as a model of the generated Python (validated by correspondence, not proved). '
               'The theorems hold for the per-node saved length (sharedFallbackVar = false), the behaviour of /repo after the D-13a fix.')
-RULE = ('constructive family: trees of elements with tal:on-error on any subset (nesting <= 4, with omit-tag, repeat, define in between) '
+RULE = ('constructive family: trees of elements with tal:on-error on any subset (nesting <= 4, with omit-tag, define, condition, translation '
+        'blocks, in-place macro definitions and slot fillers of macros whose body has a handler of its own in between) '
         'and raising points first/middle/last, inside and after inner handlers; expected output computed by the generator. A case is '
         'non-trivial iff a handler fired after its element had already emitted output. Plus talgen templates (onerror-heavy) for '
         'model/implementation correspondence.')
@@ -49,12 +51,22 @@ def gen_tree(rng, depth, k):
         return {'t': 'boom', 'key': 'k%d' % k[0], 'exc': rng.choice(['ZeroDivisionError', 'KeyError', 'RuntimeError', 'ValueError', 'Exception', 'KeyboardInterrupt'] if rng.random() < 0.15 else ['ZeroDivisionError', 'KeyError', 'RuntimeError', 'ValueError'])}
     kids = [gen_tree(rng, depth - 1, k) for _ in range(rng.choice([1, 2, 2, 3]))]
     k[0] += 1
-    return {'t': 'elem', 'tag': rng.choice(['p', 'div', 'b', 'i']), 'attrs': rng.choice([[], [('class', 'c')], [('id', 'x'), ('title', 'T')]]),
+    if rng.random() < 0.15:
+        # the children become the filler of a slot of a macro defined in the prelude; the macro's own element may carry on-error
+        return {'t': 'use', 'name': 'm%d' % k[0], 'macro_onerror': rng.random() < 0.5, 'fb': 'M%d' % k[0], 'kids': kids}
+    return {'t': 'elem', 'tag': rng.choice(['p', 'div', 'b', 'i']), 'attrs': rng.choice([[], [('class', 'c')], [('id', 'x'), ('title', 'T')], [('class', ''), ('id', 'x')], [('alt', '')]]),
             'onerror': rng.random() < 0.5, 'fb': 'F%d' % k[0], 'structure': rng.random() < 0.2,
-            'wrap': rng.choice([None, None, None, 'define', 'omit', 'condition', 'translate']), 'kids': kids}
+            'wrap': rng.choice([None, None, None, 'define', 'omit', 'condition', 'translate', 'macro']), 'kids': kids}
 
 
-def to_src(n):
+def to_src(n, defs=None):
+    if defs is None:
+        defs = []
+    if n['t'] == 'use':
+        # the handler sits on an element *inside* the macro (tal:on-error on the defining element itself is not part of the macro: D-09d)
+        oe = ' tal:on-error="string:%s"' % n['fb'] if n['macro_onerror'] else ''
+        defs.append('<p metal:define-macro="%s"><span%s>M[<b metal:define-slot="s">D</b>]</span></p>' % (n['name'], oe))
+        return '<x metal:use-macro="macros[\'%s\']"><u metal:fill-slot="s">%s</u></x>' % (n['name'], ''.join(to_src(c, defs) for c in n['kids']))
     if n['t'] == 'text':
         return n['s']
     if n['t'] == 'val':
@@ -74,7 +86,9 @@ def to_src(n):
         a += ' tal:condition="True"'
     elif n['wrap'] == 'translate':
         a += ' i18n:translate=""'
-    return '<%s%s>%s</%s>' % (n['tag'], a, ''.join(to_src(c) for c in n['kids']), n['tag'])
+    elif n['wrap'] == 'macro':
+        a += ' metal:define-macro="d%s"' % n['fb']
+    return '<%s%s>%s</%s>' % (n['tag'], a, ''.join(to_src(c, defs) for c in n['kids']), n['tag'])
 
 
 class Raised(Exception):
@@ -93,6 +107,16 @@ def expected(n, st):
     if n['t'] == 'boom':
         st['log'].append(n['key'])
         raise Raised(n['exc'], n['key'])
+    if n['t'] == 'use':
+        before = len(st['log'])
+        try:
+            return '<p><span>M[<u>%s</u>]</span></p>' % ''.join(expected(c, st) for c in n['kids'])
+        except Raised as e:
+            if not n['macro_onerror'] or e.cls in ('KeyboardInterrupt',):
+                raise
+            st['handled'] += 1
+            st['nontrivial'] = True
+            return '<p><span>%s</span></p>' % n['fb']
     a = ''.join(' %s="%s"' % kv for kv in n['attrs'])
     omit = n['wrap'] == 'omit'
     reps = 2 if n['wrap'] == 'repeat' else 1
@@ -129,7 +153,9 @@ def constructive_cases(ctx, n):
         post = ctx.rng.choice(['', ' POST', '<br/>'])
         tree = {'t': 'elem', 'tag': 'section', 'attrs': [], 'onerror': ctx.rng.random() < 0.3, 'fb': 'TOP', 'structure': False,
                 'wrap': None, 'kids': [gen_tree(ctx.rng, ctx.rng.choice([1, 2, 3, 4]), k) for _ in range(ctx.rng.choice([1, 2, 3]))]}
-        src = pre + to_src(tree) + post
+        defs = []
+        body = to_src(tree, defs)
+        src = ('<tal:block condition="False">%s</tal:block>' % ''.join(defs) if defs else '') + pre + body + post
         st = {'log': [], 'handled': 0, 'nontrivial': False}
         try:
             exp = {'out': pre + expected(tree, st) + post, 'log': st['log'], 'handled': st['handled']}
